@@ -283,6 +283,10 @@ def run(ctx, rep) -> None:
 
     rep.rule("C14.6", "the pure utilities this property is built on compute what they document (concrete interpretation on small cases)")
     rep.attempt("utility_semantics", utility_semantics, ctx, rep, "C14.6", ("get_dtype_size", "compress_list", "generate_pairwise_indices"))
+    from .common import cached_functions_are_functions_of_their_key, late_binding_closures
+
+    rep.attempt("cached_functions", cached_functions_are_functions_of_their_key, ctx, rep, "C14.6")
+    rep.attempt("late_binding_closures", late_binding_closures, ctx, rep, "C14.6")
     rep.rule("C14.1", "the assignment is a deterministic function of global block sizes and group size (stable largest-first, heap of (load, rank), consistent load bookkeeping)")
     rep.rule("C14.2", "state lives only on the owner: selector = assigned rank == rank in the communication group; owners come from the assignment; allocation iterates local lists")
     rep.rule("C14.3", "the DDP / HSDP / HybridShard copies of the assignment and buffer code agree")
